@@ -1,30 +1,49 @@
 import Rbp.Model.Block
+/-! AuxPoW section reader (`read_aux_pow_extension`, `read_merkle_branch`) and `read_block` with the per-coin threshold. -/
 namespace Aux
 open W Csv
 
+structure RBranch where
+  hashes : List Bytes
+  mask : Nat
+
+structure RAux where
+  coinbase : RTx
+  parentHash : Bytes
+  coinbaseBranch : RBranch
+  chainBranch : RBranch
+  parent : RHeader
+
 /-- read_merkle_branch: count, hashes, u32 side mask -/
-def readBranch : P Unit := fun bs => do
+def readBranch : P RBranch := fun bs => do
   let (c, bs) ← readVarUint bs
-  let (_, bs) ← readN (take 32) c.value bs
-  let (_, bs) ← readLE 4 bs
-  pure ((), bs)
+  let (hs, bs) ← readN (take 32) c.value bs
+  let (m, bs) ← readLE 4 bs
+  pure (⟨hs, m⟩, bs)
 
 /-- read_aux_pow_extension: parent coinbase tx, parent hash, two branches, parent header -/
-def readAuxPow : P Unit := fun bs => do
-  let (_, bs) ← readTx bs
-  let (_, bs) ← take 32 bs
-  let (_, bs) ← readBranch bs
-  let (_, bs) ← readBranch bs
-  let (_, bs) ← readHeader bs
-  pure ((), bs)
+def readAuxPow : P RAux := fun bs => do
+  let (cb, bs) ← readTx bs
+  let (ph, bs) ← take 32 bs
+  let (b1, bs) ← readBranch bs
+  let (b2, bs) ← readBranch bs
+  let (hd, bs) ← readHeader bs
+  pure (⟨cb, ph, b1, b2, hd⟩, bs)
 
-/-- read_block with the per-coin activation version -/
-def readBlockCoin (threshold : Option Nat) : P RBlock := fun bs => do
+/-- `header.version >= activation version` -/
+def wantsAux (threshold : Option Nat) (version : Nat) : Bool :=
+  match threshold with
+  | some v => version ≥ v
+  | none => false
+
+/-- read_block: header, AuxPoW section iff the coin has an activation version and the block version reaches it, txs -/
+def readBlockAux (threshold : Option Nat) : P (RBlock × Option RAux) := fun bs => do
   let (h, bs) ← readHeader bs
-  let bs ← match threshold with
-    | some v => if h.version ≥ v then (readAuxPow bs).map (·.2) else some bs
-    | none => some bs
+  let (a, bs) ← if wantsAux threshold h.version then (readAuxPow bs).map (fun (a, r) => (some a, r)) else some (none, bs)
   let (c, bs) ← readVarUint bs
   let (txs, bs) ← readN readTx c.value bs
-  pure (⟨h, c, txs⟩, bs)
+  pure ((⟨h, c, txs⟩, a), bs)
+
+def readBlockCoin (threshold : Option Nat) : P RBlock := fun bs =>
+  (readBlockAux threshold bs).map fun ((b, _), r) => (b, r)
 end Aux
